@@ -473,7 +473,8 @@ func c06MapOrderExtensions(c *Ctx) {
 	pick := []int{3, 6, 21, 37} // one nycttrips configuration, three of nyctalerts
 	cfg := cfgs[pick[c.Free("configuration", len(pick))]]
 	c17AlarmingHeader = 3
-	unplanned := c17MercuryEntity(nil, mercurySpec{prio1: 29, prio2: -2, prefix: 1, hasExt: true})
+	// (two selectors with different priorities: which of them decides the effect is not stated, but it is the same one every time)
+	unplanned := c17MercuryEntity(nil, mercurySpec{prio1: 29, prio2: 20, prefix: 1, hasExt: true})
 	c17AlarmingHeader = 0
 	ts := uint64(1700000000)
 	m := newFeed(&ts)
